@@ -1016,6 +1016,8 @@ def m_clip(a, a_min=None, a_max=None, min=None, max=None, **kw):   # noqa: A002
         if lo is not None:
             x = R.py_max([lo, x], True)
         return x
+    if not getattr(a, "_symarray", False) and not isinstance(a, (list, tuple, numpy.ndarray)):
+        return one(a)
     return elementwise(one, a)
 
 
